@@ -182,6 +182,7 @@ impl Property for C04 {
         for (i, item) in real.items.iter().enumerate() {
             let made_call = real.log_len_before[i + 1] > real.log_len_before[i];
             let call = if made_call { Some(&real.log[real.log_len_before[i]]) } else { None };
+            let mut answered_error = false;
             match item {
                 RealItem::Panic(p) => {
                     out.fail(p.key(), format!("item {i} panicked: {p}"));
@@ -196,29 +197,17 @@ impl Property for C04 {
                         // an error item with its driver call: a virtual signal read Z/X in this
                         // call; the row is consumed, the device values of that call are the
                         // latest ones read
+                        // (or a malformed answer). The item keeps its place in its expansion -
+                        // which one is known from the vector the driver received - see below.
                         seen_virtual_error = true;
-                        if let Some(c) = call {
-                            if c.read {
-                                latest = c.answer.clone();
-                                latest_call = real.log_len_before[i];
-                                checked_calls += 1;
-                                midclock_since = false;
-                            }
-                        }
-                        // The items that follow may be the rest of the errored row's
-                        // expansion (evaluated before this call) or a new evaluation; which
-                        // one cannot be told without the row. Device probes are not checked
-                        // in the run of same-tag items that follows; they are again from the
-                        // next change of tag on (certainly a fresh evaluation).
-                        desync = true;
-                        desync_tag = None;
-                        continue;
-                    }
+                        answered_error = true;
+                    } else {
                     // an expression could not be evaluated (a Z/X read, for instance): what
                     // the program state is afterwards is not specified; stop here
                     out.class("zx-read-error-seen");
                     nontrivial = true;
                     break;
+                    }
                 }
                 RealItem::Row(_) => {}
             }
@@ -229,7 +218,7 @@ impl Property for C04 {
                 _ => {
                     let Some(c) = call else { break };
                     failed_row = RealRow { inputs: c.inputs.clone(), outputs: vec![], failing: vec![], line: 0 };
-                    out.class("driver-failure-item");
+                    out.class_if(!answered_error, "driver-failure-item");
                     (&failed_row, true)
                 }
             };
@@ -266,7 +255,19 @@ impl Property for C04 {
                     out.class_if(i == 0, "probe-before-first-row");
                     out.class_if(seen_driver_failure && !is_failed, "row-after-driver-failure");
                     if is_failed {
-                        seen_driver_failure = true;
+                        if answered_error {
+                            // the device values of that call are the latest ones read
+                            if let Some(c) = call {
+                                if c.read {
+                                    latest = c.answer.clone();
+                                    latest_call = real.log_len_before[i];
+                                    checked_calls += 1;
+                                    midclock_since = false;
+                                }
+                            }
+                        } else {
+                            seen_driver_failure = true;
+                        }
                         continue;
                     }
                     for (k, p) in info.probes.iter().enumerate() {
